@@ -3,6 +3,7 @@ package main
 import (
 	"encoding/json"
 	"fmt"
+	"github.com/nsqio/nsq/nsqd"
 	"net/url"
 	"os"
 	"path/filepath"
@@ -570,14 +571,36 @@ func (cr *caseRun) recordMeta() {
 	cr.ev(fmt.Sprintf("EMeta [%s]%%N", strings.Join(ts, ";")))
 }
 
-func (cr *caseRun) opRestart() {
+func (cr *caseRun) opRestart() { cr.opRestartWith(nil) }
+
+// opRestartWith: graceful Exit and restart; [whenClosed], if given, runs once the topics
+// and channels have been closed and flushed (Exit then still waits for the connection
+// handlers to return).
+func (cr *caseRun) opRestartWith(whenClosed func()) {
 	cr.settle()
 	for _, sc := range cr.clients {
-		sc.c.close()
+		if whenClosed == nil {
+			sc.c.close()
+		}
 		sc.alive = false
 	}
 	cr.pub.close()
-	cr.d.Exit()
+	if whenClosed == nil {
+		cr.d.Exit()
+	} else {
+		h0 := nsqd.VerifHits("exit:topics-closed")
+		done := make(chan struct{})
+		go func() { cr.d.Exit(); close(done) }()
+		deadline := time.Now().Add(700 * time.Millisecond)
+		for nsqd.VerifHits("exit:topics-closed") == h0 && time.Now().Before(deadline) {
+			time.Sleep(time.Millisecond)
+		}
+		whenClosed()
+		<-done
+		for _, sc := range cr.clients {
+			sc.c.close()
+		}
+	}
 	cr.recordMeta()
 	cr.ev("ERestart")
 	cr.tag("restart")
